@@ -207,6 +207,7 @@ func workDirMode(prop, tier string, seed uint64, mode string) string {
 
 func runWorker(def *CheckDef, tier string, seed uint64, w, nw, startAfter int, gen int, limit int) int {
 	debug.SetTraceback("all")
+	debug.SetPanicOnFault(true) // per goroutine: cases run on this one
 	dir := workDir(def.ID, tier, seed)
 	ctx := newCtx(def.ID, tier, seed)
 	jf, err := os.OpenFile(filepath.Join(dir, fmt.Sprintf("w%d.journal", w)), os.O_CREATE|os.O_WRONLY|os.O_APPEND, 0644)
@@ -264,7 +265,11 @@ func runWorker(def *CheckDef, tier string, seed uint64, w, nw, startAfter int, g
 		fmt.Fprintf(jf, "case %d\n", idx)
 		ctx.curCase = idx
 		atomic.StoreInt64(&ctx.caseStart, time.Now().UnixNano())
+		tc := time.Now()
 		runCaseRecovered(def, ctx, idx)
+		if ms := time.Since(tc).Milliseconds(); ms >= 200 {
+			fmt.Fprintf(jf, "slow %d %dms\n", idx, ms)
+		}
 		atomic.StoreInt64(&ctx.caseStart, 0)
 		ctx.casesDone++
 	}
@@ -644,7 +649,7 @@ func conclude(def *CheckDef, tier string, seed uint64, m *Merged, preInfo map[st
 	}
 	writeEvidence(def, tier, seed, m, preInfo, missed, verdict, m.Infra, wall)
 	fmt.Printf("%s %s tier=%s seed=%d mode=%s cases=%d nontrivial=%d violations=%d wall=%.1fs\n",
-		strings.ToUpper(verdict), def.ID, tier, seed, buildMode, m.CasesDone, len(m.Distinct), newViol, wall)
+		strings.ToUpper(verdict), def.ID, tier, seed, strings.Join(passModes, "+"), m.CasesDone, len(m.Distinct), newViol, wall)
 	return code
 }
 
